@@ -38,7 +38,10 @@ class ReadByIdentifierPrimitive(UDSScanner):
     async def main(self) -> None:
         try:
             if self.config.session != 0x01:
-                await self.ecu.set_session(self.config.session)
+                session_resp = await self.ecu.set_session(self.config.session)
+                if isinstance(session_resp, NegativeResponse):
+                    logger.critical(f"could not change to session: {session_resp}")
+                    sys.exit(1)
         except Exception as e:
             logger.critical(f"fatal error: {e!r}")
             sys.exit(1)
